@@ -3,6 +3,7 @@
 mod forest;
 mod observe;
 mod proj;
+mod ser;
 mod text;
 mod rng;
 
@@ -250,6 +251,7 @@ fn main() {
         "forest-exec" => forest_exec(&args[2..]),
         "observe" => observe_cmd(&args[2..]),
         "parse" => jobs_cmd(&args[2..], text::parse_job),
+        "ser" => jobs_cmd(&args[2..], ser::ser_job),
         other => {
             eprintln!("unknown sub-command {other}");
             std::process::exit(2);
